@@ -324,7 +324,11 @@ func (c *FnCtx) structSort(t types.Type, st *types.Struct) string {
 func (c *FnCtx) structCtor(t types.Type) string { return sym("mk " + typeName(t)) }
 func (c *FnCtx) fieldAcc(t types.Type, i int) string {
 	st := t.Underlying().(*types.Struct)
-	return sym("f " + typeName(t) + "." + st.Field(i).Name())
+	n := st.Field(i).Name()
+	if n == "_" {
+		n = fmt.Sprintf("_%d", i)
+	}
+	return sym("f " + typeName(t) + "." + n)
 }
 
 // zero value term of a type.
@@ -417,7 +421,11 @@ func (c *FnCtx) typeFactD(term string, t types.Type, depth int) string {
 // heap array for field i of struct type t (top-level cell fields).
 func (c *FnCtx) fieldHeap(t types.Type, i int) string {
 	st := t.Underlying().(*types.Struct)
-	name := sym("H " + typeName(t) + "." + st.Field(i).Name())
+	fname := st.Field(i).Name()
+	if fname == "_" {
+		fname = fmt.Sprintf("_%d", i)
+	}
+	name := sym("H " + typeName(t) + "." + fname)
 	if _, ok := c.heap[name]; !ok {
 		fs := c.sortOf(st.Field(i).Type())
 		c.decl("(declare-const " + name + " (Array Int " + fs + "))")
